@@ -209,9 +209,22 @@ fn gen_table(r: &mut Rng, fam_idx: u64) -> Table {
                         _ => 1 + r.below(130) as usize,
                     };
                 }
-                let reps = if r.chance(1, 5) { 1 + r.below(3) as usize } else { 1 };
+                // a run of nodes sharing the distinct start number 256*s (the select-sample
+                // boundary), with the NEXT distinct start opening a fresh 64-bit word: the shape
+                // in which a cursor re-seeded from a select sample can overshoot
+                let at_sample = u > 0 && (u % 256 == 0 || (u + 1) % 256 == 0);
+                let reps = if at_sample && r.chance(2, 3) {
+                    2 + r.below(3) as usize
+                } else if r.chance(1, 5) {
+                    1 + r.below(3) as usize
+                } else {
+                    1
+                };
                 for _ in 0..reps {
                     starts.push(pos as u32);
+                }
+                if at_sample && reps > 1 && r.chance(2, 3) {
+                    pos = (pos / 64 + 1) * 64 - 1; // next distinct start lands on a multiple of 64
                 }
             }
             let tl = pos + *r.pick(&[0usize, 1, 2, 64]);
@@ -451,9 +464,15 @@ fn gen_indices(r: &mut Rng, n: usize, q: usize) -> Vec<u64> {
             6 => {
                 out.push(*r.pick(&oor));
             }
-            // restart from the beginning
+            // restart from the beginning, then one long forward skip
             7 => {
-                cur = 0;
+                cur = r.below(12);
+                out.push(cur);
+                if n > 20 {
+                    cur = r.range(cur + 10, n64 + 1);
+                    out.push(cur);
+                    cur += 1;
+                }
             }
             // around word / sample boundaries
             _ => {
